@@ -5,7 +5,9 @@ PROPS["C02"] = dict(
          "version/Delete/GetMany/PutMany with and without a far-future expiry) or a race program (all threads create one key; all threads "
          "read-then-CAS one key), on the in-memory backend and on Redis (miniredis); threads start behind a barrier and run freely with drawn "
          "Gosched calls; plus a hammer unit: 2..8 threads race Create on one fresh key (or CasByVersion on one version) behind a spin barrier "
-         "for 200..1500(4000) rounds, with a context whose Err() yields the processor in half of the cases, winners counted directly. Multi-key calls are split into per-key sub-operations sharing the call/return stamps. non-trivial = the recorded history "
+         "for 200..1500(4000) rounds, with a context whose Err() yields the processor in half of the cases, winners counted directly; and a squeeze unit that forces pairs of in-memory operations (Create/Create, Create/Put, CAS/CAS, CAS/Put, CAS/Delete) "
+         "into the order 'A's first critical section, all of B, A's next critical section' through the storage mutex (overlay accessor, FIFO hand-over of a "
+         "starving sync.Mutex). Multi-key calls are split into per-key sub-operations sharing the call/return stamps. non-trivial = the recorded history "
          "has two overlapping operations of different threads on one key of which at least one is a write; distinct = hash of (programs, "
          "call/return stamp pattern observed)",
     assumptions=["schedules are sampled by the Go runtime, not enumerated; the deciding step is the checker on each recorded history",
@@ -13,6 +15,7 @@ PROPS["C02"] = dict(
                  "to the model until first read and must differ from the one before", "porcupine v1.3.0; a checker timeout is inconclusive, never a violation"],
     units=[
         dict(name="inmem", run="^TestC02InmemRapid$", checks=(1500, 10000), shards=(2, 8), timeout=(300, 1500), race=(False, True)),
+        dict(name="squeeze", run="^TestC02Squeeze$", shards=1, timeout=(300, 900)),
         dict(name="hammer", run="^TestC02Hammer$", checks=(60, 400), shards=(2, 8), timeout=(300, 1500), shrinktime="15s"),
         dict(name="redis", run="^TestC02RedisRapid$", checks=(400, 2500), shards=(6, 8), timeout=(300, 1500), race=(False, True)),
     ],
